@@ -192,6 +192,10 @@ func runCase(c Case, rec *ev.Recorder) ev.Outcome {
 	classes := []string{"builder:" + c.Builder}
 	nontrivial := cc.pb.NbRows() > len(c.Prog.Out) // more than the output-binding rows
 	switch {
+	case !interp.OK && interp.Free:
+		// the failing operation consumes a 0/0 quotient, which the documentation leaves
+		// unconstrained: with another quotient the program may well be satisfiable
+		return ev.Outcome{Discard: true, DiscardWhy: "verdict depends on the documented-unconstrained 0/0 quotient"}
 	case !interp.OK:
 		classes = append(classes, "spec:unsat")
 		if len(got) != 0 {
